@@ -14,8 +14,9 @@ LEMMAS = ["MajoranaVerif.Proofs.Mmu",       # DWf / Coh / view: the L1D invarian
 
 
 def theorem_modules():
-    return {"C05": LEMMAS + ["MajoranaVerif.Props.C05"],
-            "C09": LEMMAS + ["MajoranaVerif.Props.C05", "MajoranaVerif.Props.C09"],
+    # Proofs.MsiCoherence (work package COH): coherence of the abstract MSI model, behind Props.C05.Msi.* / Props.C09.Msi.* / Props.C10.Msi.*
+    return {"C05": LEMMAS + ["MajoranaVerif.Proofs.MsiCoherence", "MajoranaVerif.Props.C05"],
+            "C09": LEMMAS + ["MajoranaVerif.Proofs.MsiCoherence", "MajoranaVerif.Props.C05", "MajoranaVerif.Props.C09"],
             # C01/C07/C12 already pass their own Props module; these are the extra lemma layers
             "C01": LEMMAS, "C07": LEMMAS, "C12": LEMMAS}
 
